@@ -109,4 +109,21 @@ CHECKS = {
         technique='TLA+ spec (Ante.tla decision table) + TLC exhaustive case table + replay of every case as a real signed transaction through every execution mode + TLC trace validation',
         text="The admission table is enumerated completely and the statement of C10 is checked on it; every row is executed against the real application (registered message types enumerated at run time) and the admitted / refused verdict and the 'refused changes nothing' app-hash comparison are validated by TLC.",
         note=TRUSTED),
+    "C18": dict(
+        level="model_checking",
+        technique="TLA+ Reimport operators (Locking.tla, Relayer.tla; Bridge is the identity) + TLC exhaustive fixpoint check on the bounded block model + real export -> InitChain on a fresh application with TLC trace validation of the imported state and of the history continued on the imported chain",
+        text="TLC checks at every reachable block boundary of the bounded locking model that rebuilding indices, ranking, set and threshold list "
+             "from the records is a fixpoint; real mixed histories are exported at random heights, imported into a fresh application, compared "
+             "module by module (second export identical, validators equal, every collection equal to the specification's Reimport) and then "
+             "continued on the imported chain under the module trace specifications with all their invariants.",
+        note=TRUSTED),
+    "C19": dict(
+        level="exploration",
+        technique="TLA+ reject-leaves-state-unchanged structure of every module action (checked by the module trace specs) + seeded mutation driver at sampled reachable states with TLC validation of outcomes and a write-ahead input journal for process deaths",
+        text="Every specification action has explicit reject branches that leave the state unchanged and the trace specifications never explain a "
+             "halt; byte- and structure-level malformed inputs of every message type, of the block message and of proposals are explored by seeded "
+             "mutators at states sampled along real histories through CheckTx, ProcessProposal and FinalizeBlock; TLC validates that each call "
+             "returned, garbage proposals were refused, and failed transactions left the four module stores identical to a reference execution. "
+             "This is exploration strength for the byte-level clause (DESIGN.md section 6), not a proof over all inputs.",
+        note=TRUSTED),
 }
